@@ -6,7 +6,7 @@ import z3
 from . import sorts as S
 from .sorts import V, INT, BOOL, STR, BYTES, NONE, ANY, Seq, Tup, Opt, SetS, MapS, Opaque, Enum, Obj, PySide, EXC, FUNC
 from .state import EngineError, SpecDrift, Ctx
-from .engine import GLOB, POLY_LIST, POLY_DICT, POLY_SET, ITER, Out, exc_value
+from .engine import GLOB, POLY_LIST, POLY_DICT, POLY_SET, ITER, Out, exc_value, imp_value
 
 MAX_PATHS = 4000
 
@@ -136,12 +136,12 @@ class StmtMixin:
                 raise EngineError("starred assignment target (L%d)" % t.lineno)
             if isinstance(v.s, Tup):
                 if len(v.s.elems) != n:
-                    exc.append((st, exc_value("ValueError", t.lineno, "unpack")))
+                    exc.append((st, imp_value("ValueError", t.lineno, "unpack")))
                     return []
                 parts = [v.s.get(v, i) for i in range(n)]
             elif v.s.pyside and getattr(v.s, "kind", "") == "pytuple":
                 if len(v.t) != n:
-                    exc.append((st, exc_value("ValueError", t.lineno, "unpack")))
+                    exc.append((st, imp_value("ValueError", t.lineno, "unpack")))
                     return []
                 parts = list(v.t)
             elif isinstance(v.s, Seq):
@@ -302,7 +302,7 @@ class StmtMixin:
         for s1, c in self.ev(s.test, st, exc):
             ok, bad = self.branch(s1, S.truthy(c))
             if bad is not None:
-                outs.append(Out("raise", bad, exc_value("AssertionError", s.lineno, ast.unparse(s.test))))
+                outs.append(Out("raise", bad, imp_value("AssertionError", s.lineno, ast.unparse(s.test))))
             if ok is not None:
                 outs.append(Out("normal", ok))
         return outs
@@ -376,7 +376,7 @@ class StmtMixin:
         remaining = True
         for h in handlers:
             names = self.handler_names(h)
-            ms = [self.hier.match(cls, n) for n in names]
+            ms = [self.match_exc(excv, n) for n in names]
             if "yes" in ms:
                 outs.extend(self.run_handler(h, st, excv))
                 remaining = False
@@ -389,6 +389,12 @@ class StmtMixin:
         if remaining:
             outs.append(Out("raise", st, excv))
         return outs
+
+    def match_exc(self, excv, handler):
+        r = self.hier.match(excv.t, handler)
+        if r == "maybe" and any(self.hier.is_sub(handler, x) for x in (excv.x or {}).get("excludes", ())):
+            return "no"
+        return r
 
     def run_handler(self, h, st, excv):
         prev = st.meta.get("handling")
@@ -417,6 +423,19 @@ class StmtMixin:
         exc = []
         outs = []
         ftext = ast.unparse(it.context_expr.func) if isinstance(it.context_expr, ast.Call) else text
+        if ftext in ("contextlib.suppress", "suppress"):
+            names = [ast.unparse(a).split(".")[-1] for a in it.context_expr.args]
+            outs = []
+            for o in self.with_items(items[1:], body, st, node):
+                if o.kind == "raise":
+                    ms = [self.match_exc(o.val, n) for n in names]
+                    if "yes" in ms:
+                        outs.append(Out("normal", o.st))
+                        continue
+                    if "maybe" in ms:
+                        outs.append(Out("normal", o.st.copy()))
+                outs.append(o)
+            return outs
         for s1, cm in self.ev(it.context_expr, st, exc):
             # __enter__
             entered = [(s1, cm)]
